@@ -94,7 +94,8 @@ Add(step, ks) ==
   /\ act' = [op |-> "add"]
 
 \* model-checking instance: rewards are a fixed function of (t,e), done flags are arbitrary
-MCStep(t, d) == [rew |-> [e \in Env |-> 1 + ((t + 2 * e) % 3)], done |-> d]
+\* (rewards -1, 0, 1, 2: negative and zero rewards are ordinary rewards)
+MCStep(t, d) == [rew |-> [e \in Env |-> ((t + 2 * e) % 4) - 1], done |-> d]
 AddAny == \E d \in [Env -> BOOLEAN] : \E ks \in [Env -> 1..n] : Add(MCStep(Len(hist) + 1, d), ks)
 Next == AddAny
 Spec == Init /\ [][Next]_vars
